@@ -680,6 +680,12 @@ def main():
 
     for blk in ("_boundary_vertices", "_p1_selection_block", "_p1_numbering", "_p1_final_block", "_rwg_selection_block", "_rwg_step_block", "_rwg_final_block"):
         VR.add_block(run, "contracts.dofmap_blocks", blk)
+    # which elements a space covers and which normals it swaps (space._process_segments): deductive block contract + native link of the list-as-set abstraction
+    # (lists in any order, tuples, sets, dicts and key views of domain ids; support_elements)
+    from checks import c03 as _c03
+
+    VR.add_block(run, "contracts.dofmap_blocks", "_process_segments_block")
+    run.add("space._process_segments::native[lists in any order, with repetitions, tuples, sets, dicts; support_elements; both -> ValueError]", "bounded", _c03.ob_process_segments)
     for gname in ("screen2", "octa", "two_tets_face") + (("screen3", "cube12") if thorough else ()):
         run.add("_p1_selection_block::native[%s]" % gname, "bounded", ob_p1_selection_native, gname)
     for gname in ("screen2", "octa", "two_tets_face") + (("screen3", "cube12") if thorough else ()):
